@@ -287,7 +287,35 @@ def root(n: size, x: f32[n], y: f32[n], sc: f32, flag: bool):
     return GenProgram(HEADER + body, "root", [], ["Cfg"], {"template": "config_loop", "prefer_ops": ["fission", "fission", "autofission", "fuse", "reorder_stmts", "remove_loop", "std.hoist_from_loop"]})
 
 
-ALL = [t_temp2d, t_temp2d_call, t_two_loops, t_reduce_const, t_sliding, t_two_temps, t_split_range, t_writes, t_matmul, t_conv1d, t_blur, t_name_clash, t_config_loop]
+def t_mod_trip(rng):
+    """trip counts and indices built from / and % of iterators with short constant ranges
+    (ranges that do and do not straddle a multiple of the modulus): what range analysis
+    concludes about them is what simplify folds with"""
+    c = _c(rng, [3, 4, 5])
+    lo = _c(rng, [0, 1, 2, 3, 5])
+    ln = _c(rng, [1, 2, c - 1, c - 1, c, c + 1])
+    hi = lo + ln
+    s_ = _c(rng, [0, 0, 1, 2, 3])
+    k = _c(rng, [2, 3])
+    inner = _c(
+        rng,
+        [
+            f"y[j, i / {k}] += x[i % {k}]",
+            f"y[j, i % {k}] = x[i / {k}] + 1.0",
+            f"y[j, (i + j) % {k}] += x[(i + {s_}) / {k}]",
+            f"if i / {k} > 0:\n                y[j, i] = 2.0\n            else:\n                y[j, i] += x[i]",
+        ],
+    )
+    body = f"""@proc
+def root(x: f32[{c + 4}], y: f32[{hi + 1}, {c + 1}]):
+    for j in seq({lo}, {hi}):
+        for i in seq(0, (j + {s_}) % {c}):
+            {inner}
+"""
+    return GenProgram(HEADER + body, "root", [], [], {"template": "mod_trip", "prefer_ops": ["simplify", "simplify", "unroll_loop", "cut_loop", "divide_loop", "std.cleanup"]})
+
+
+ALL = [t_temp2d, t_temp2d_call, t_two_loops, t_reduce_const, t_sliding, t_two_temps, t_split_range, t_writes, t_matmul, t_conv1d, t_blur, t_name_clash, t_config_loop, t_mod_trip]
 
 
 def any_template(rng):
